@@ -253,7 +253,14 @@ C21_Monotone ==
    Clause("C21", "UsedChecksNeverForgotten", NoPanic /\ "st" \in DOMAIN ev' /\ st.checksUsed # <<>>,
           Range(st.checksUsed) \subseteq Range(st'.checksUsed),
           [at |-> Where, before |-> st.checksUsed, after |-> st'.checksUsed])
-C21_Step == C21_Redeem /\ C21_Monotone
+\* the value and the fee are paid from what the issuer holds: a redemption succeeds only if the issuer can afford both
+C21_Funds ==
+   Clause("C21", "IssuerPaysFromWhatItHolds", Delivered /\ Code = 0 /\ Tx.type = "RedeemCheck" /\ Tx.intact /\ HasArg("issuer"),
+          /\ (Arg("value") ++ (IF Arg("checkCoin") = Tx.gasCoin THEN FeeAmount ELSE Zero)) \preceq Bal(st, Arg("issuer"), Arg("checkCoin"))
+          /\ FeeAmount \preceq Bal(st, Arg("issuer"), Tx.gasCoin)
+          /\ Zero \preceq Bal(st', Arg("issuer"), Arg("checkCoin")) /\ Zero \preceq Bal(st', Arg("issuer"), Tx.gasCoin),
+          [at |-> WhereTx, issuer |-> Arg("issuer"), held |-> Bal(st, Arg("issuer"), Arg("checkCoin")), value |-> Arg("value"), fee |-> FeeAmount])
+C21_Step == C21_Redeem /\ C21_Monotone /\ C21_Funds
 
 \* ======================================================================== C27 (custom commission coin)
 \* pool route: amount of the gas coin to sell for `out` base coins (exact integer formula of the swap pool, 0.2% fee, rounded up)
